@@ -274,12 +274,16 @@ let run_case (x : sx) : Stdlib.String.t =
               | [] -> ()
               | steps ->
                   let cp l = List.map (function A c -> n_of_int (int_of_string c) | _ -> failwith "bad cp") l in
+                  let plain = function
+                    | A "0" :: k -> SDot (cp k)
+                    | A "1" :: k -> SIdx (cp k)
+                    | [A "2"] -> SWild true
+                    | [A "3"] -> SWild false
+                    | A q :: k -> SBr (n_of_int (int_of_string q), cp k)
+                    | _ -> failwith "bad step" in
                   let ks = List.map (function
-                    | L (A "0" :: k) -> SDot (cp k)
-                    | L (A "1" :: k) -> SIdx (cp k)
-                    | L [A "2"] -> SWild true
-                    | L [A "3"] -> SWild false
-                    | L (A q :: k) -> SBr (n_of_int (int_of_string q), cp k)
+                    | L (A "4" :: inner) -> RRec (plain inner)
+                    | L l -> RPlain (plain l)
                     | _ -> failwith "bad step") steps in
                   Buffer.add_string b (if chain_path ks = path then "\tKP=1" else "\tKP=0"));
              if not (wf_node t) then Buffer.add_string b "\tWF=0";
